@@ -268,7 +268,7 @@ impl Ctx {
             },
             _ => l(vec![a(-2)]),
         };
-        (req.clone(), vec![original, rows, reloaded, same_text], nontrivial)
+        (req.clone(), vec![original, rows, reloaded, same_text, a(1)], nontrivial)
     }
 }
 
@@ -360,10 +360,146 @@ fn count_ops(out: &mut Out, ops: &[Sx]) {
     }
 }
 
+fn by_id(t: i64) -> Sx {
+    l(vec![a(0), a(t)])
+}
+fn cb(n: i64) -> Sx {
+    l(vec![a(0), a(n)])
+}
+fn ce(z: i64) -> Sx {
+    l(vec![a(1), a(z)])
+}
+
+/// the thirteen forms of a simple selector on the scoped base store: text on r0 (7 codepoints)
+/// 2..4 in the four alignments, a0 as a whole, a0 (text 1..6) with the relative offset 1..3 in
+/// the four alignments, resource, data set, key, data
+fn member_forms() -> Vec<(Sx, &'static str)> {
+    let mut v = Vec::new();
+    for (b, e) in [(cb(2), cb(4)), (cb(2), ce(-3)), (ce(-5), ce(-3)), (ce(-5), cb(4))] {
+        v.push((l(vec![a(0), by_id(0), b, e]), "text"));
+    }
+    v.push((l(vec![a(1), by_id(0)]), "annotation"));
+    for (b, e) in [(cb(1), cb(3)), (cb(1), ce(-2)), (ce(-4), ce(-2)), (ce(-4), cb(3))] {
+        v.push((l(vec![a(2), by_id(0), b, e]), "annotation_offset"));
+    }
+    v.push((l(vec![a(3), by_id(0)]), "resource"));
+    v.push((l(vec![a(4), by_id(0)]), "dataset"));
+    v.push((l(vec![a(5), by_id(0), by_id(0)]), "key"));
+    v.push((l(vec![a(6), by_id(0), by_id(0)]), "data"));
+    v
+}
+
+fn strv(s: &str) -> Sx {
+    let mut v = vec![a(4)];
+    v.extend(s.chars().map(|c| a(c as u32 as i64)));
+    l(v)
+}
+
+/// r0 (7 codepoints), r1 (empty), set s0 with data d0 (k0 = 1) and d1 (k1 = "x;y"), set s1 (empty),
+/// a0 = text 1..-1 of r0, a1 = r1 as a resource
+fn base_ops() -> Vec<Sx> {
+    vec![
+        l(vec![a(0), a(0), a(7)]),
+        l(vec![a(0), a(1), a(0)]),
+        l(vec![a(1), a(0)]),
+        l(vec![a(1), a(1)]),
+        l(vec![a(2), l(vec![by_id(0), by_id(0), by_id(0), l(vec![a(2), a(1)])])]),
+        l(vec![a(2), l(vec![by_id(0), by_id(1), by_id(1), strv("x;y")])]),
+        l(vec![a(3), a(0), l(vec![a(0), by_id(0), cb(1), ce(-1)]), l(vec![])]),
+        l(vec![a(3), a(1), l(vec![a(3), by_id(1)]), l(vec![])]),
+    ]
+}
+
+fn existing(set: i64, d: i64) -> Sx {
+    l(vec![by_id(set), by_id(d), a(-1), l(vec![a(0)])])
+}
+
+/// exhaustive small scopes: every simple form x 0/1/2 data x with/without id; every complex kind
+/// over all ordered pairs (thorough: triples) of forms; compressed ranges followed by every form;
+/// complex selectors without members; awkward value texts
+pub fn scoped(thorough: bool) -> Vec<(Vec<Sx>, String)> {
+    let forms = member_forms();
+    let mut out = Vec::new();
+    for (f, name) in &forms {
+        for nd in 0..3 {
+            for with_id in [true, false] {
+                let mut ops = base_ops();
+                let datas: Vec<Sx> = (0..nd).map(|i| existing(0, i)).collect();
+                ops.push(l(vec![a(3), if with_id { a(5) } else { a(-1) }, f.clone(), l(datas)]));
+                out.push((ops, format!("scope_simple_{}", name)));
+            }
+        }
+    }
+    for kind in 1..=3 {
+        for (f1, _) in &forms {
+            for (f2, _) in &forms {
+                let mut ops = base_ops();
+                ops.push(l(vec![a(3), a(5), l(vec![a(7), a(kind), f1.clone(), f2.clone()]), l(vec![existing(0, 0)])]));
+                out.push((ops, "scope_complex_pair".to_string()));
+                if thorough {
+                    for (f3, _) in &forms {
+                        let mut ops = base_ops();
+                        ops.push(l(vec![a(3), a(5), l(vec![a(7), a(kind), f1.clone(), f2.clone(), f3.clone()]), l(vec![])]));
+                        out.push((ops, "scope_complex_triple".to_string()));
+                    }
+                }
+            }
+        }
+        for (f, _) in &forms {
+            // three consecutive text selections are stored as one internal range; so are two
+            // consecutive annotations
+            for lead in 0..2 {
+                let mut ops = base_ops();
+                let mut t = vec![a(7), a(kind)];
+                if lead == 0 {
+                    for p in 0..3 {
+                        t.push(l(vec![a(0), by_id(0), cb(p), cb(p + 1)]));
+                    }
+                } else {
+                    t.push(l(vec![a(1), by_id(0)]));
+                    t.push(l(vec![a(1), by_id(1)]));
+                }
+                t.push(f.clone());
+                t.push(l(vec![a(3), by_id(1)]));
+                t.push(l(vec![a(4), by_id(1)]));
+                ops.push(l(vec![a(3), a(5), l(t), l(vec![])]));
+                out.push((ops, "scope_range_then_member".to_string()));
+            }
+        }
+        // a complex selector without members
+        let mut ops = base_ops();
+        ops.push(l(vec![a(3), a(5), l(vec![a(7), a(kind)]), l(vec![])]));
+        out.push((ops, "scope_empty_complex".to_string()));
+    }
+    // awkward value texts, one data item each, all on one annotation
+    let texts = ["a;b", "x,y", "\"q\"", "l1\nl2", " lead ", "null", "-0", "1.0", "", "\u{e9}\u{1f600}", "\r\n", "true", "!D0", ";", ",", "'"];
+    let mut ops = base_ops();
+    let mut datas = Vec::new();
+    for (i, t) in texts.iter().enumerate() {
+        ops.push(l(vec![a(2), l(vec![by_id(0), by_id(10 + i as i64), by_id(2 + (i as i64 % 2)), strv(t)])]));
+        datas.push(existing(0, 10 + i as i64));
+    }
+    ops.push(l(vec![a(3), a(5), l(vec![a(3), by_id(0)]), l(datas)]));
+    out.push((ops, "scope_value_texts".to_string()));
+    out
+}
+
 pub fn generate(out: &mut Out, tier: &str, seed: u64) {
     let thorough = tier == "thorough";
     let ctx = Ctx::new();
     let mut rng = Rng::new(seed);
+    for (ops, name) in scoped(thorough) {
+        count_ops(out, &ops);
+        let req = l(ops);
+        let (i2, o, nt) = ctx.exec(&req);
+        out.count(&name);
+        out.count(match o[2].nth(0).int() {
+            1 => "reload_ok",
+            0 => "reload_error",
+            _ => "reload_other",
+        });
+        out.case(&i2, &o, nt, &req);
+    }
     let n = if thorough { 40000 } else { 2500 };
     for i in 0..n {
         let cfg = GenCfg { max_ops: if i % 4 == 0 { 40 } else { 16 }, removals: if i % 3 == 0 { 0 } else { 3 }, invalid: 20, values: true };
@@ -384,5 +520,5 @@ pub fn generate(out: &mut Out, tier: &str, seed: u64) {
     }
 }
 
-pub const RULE: &str = "seeded random histories (storegen: <=6 resources of 0..8 codepoints of 1-4 bytes, <=4 datasets, all nine selector kinds incl. Multi/Composite/Directional with 1..4 mixed members and consecutive ranges that are stored compressed, begin- and end-aligned cursors, relative offsets, typed values incl. lists, references by id and handle, removals of every kind); two thirds of the histories give every annotation and data item a public id, one third leaves some without (known class). The final store is saved with save() as STAM CSV into a scratch directory, the annotation table is read back as text and compared with the model's rows, the store is loaded with from_file and compared with the original by content (ids, key/value text, data references, selector kind, referenced items by rank, absolute ranges) and by the text every annotation addresses. One evaluation = one of the four observations of a history; non-trivial = the history has a successful annotate; distinct = distinct histories.";
+pub const RULE: &str = "Exhaustive small scopes on a fixed base store (7-codepoint resource, empty resource, two data sets, a text annotation): each of the 13 simple selector forms (text in the four alignments, annotation, annotation with relative offset in the four alignments, resource, data set, key, data) x 0/1/2 data references x with/without public id; Multi/Composite/Directional over all ordered pairs (thorough: triples) of the 13 forms; internally compressed text and annotation ranges followed by every form; complex selectors without members; 16 awkward value texts (separators, quotes, line breaks, blanks, empty, look-alikes of other types). Then seeded random histories (storegen: <=6 resources of 0..8 codepoints of 1-4 bytes, <=4 datasets, all nine selector kinds incl. Multi/Composite/Directional with 1..4 mixed members and consecutive ranges that are stored compressed, begin- and end-aligned cursors, relative offsets, typed values incl. lists, references by id and handle, removals of every kind); two thirds of the histories give every annotation and data item a public id, one third leaves some without (known class). The final store is saved with save() as STAM CSV into a scratch directory, the annotation table is read back as text and compared with the model's rows, the store is loaded with from_file and compared with the original by content (ids, key/value text, data references, selector kind, referenced items by rank, absolute ranges) and by the text every annotation addresses. One evaluation = one of the four observations of a history; non-trivial = the history has a successful annotate; distinct = distinct histories.";
 pub const EXHAUSTIVE: bool = false;
